@@ -4,14 +4,18 @@ use std::io;
 
 use self::context::Context;
 pub use self::context::read_context;
+use crate::codecs::alloc_zeroed;
 
 pub fn decode(src: &[u8], ctx: &Context<'_>) -> io::Result<Vec<u8>> {
     let mapping_table = ctx.mapping_table;
 
-    let mut dst = vec![0; ctx.uncompressed_size];
+    let mut dst = alloc_zeroed(ctx.uncompressed_size)?;
 
-    match ctx.symbol_count.get() {
-        1 => dst.fill(mapping_table[0]),
+    let result = match ctx.symbol_count.get() {
+        1 => {
+            dst.fill(mapping_table[0]);
+            Some(())
+        }
         2 => unpack(src, mapping_table, 8, &mut dst),
         3..=4 => unpack(src, mapping_table, 4, &mut dst),
         5..=16 => unpack(src, mapping_table, 2, &mut dst),
@@ -21,12 +25,20 @@ pub fn decode(src: &[u8], ctx: &Context<'_>) -> io::Result<Vec<u8>> {
                 format!("expected bit pack symbol count to be <= 16, got {n}"),
             ));
         }
-    }
+    };
+
+    result.ok_or_else(|| {
+        io::Error::new(
+            io::ErrorKind::InvalidData,
+            "invalid bit pack value: no symbol in mapping table",
+        )
+    })?;
 
     Ok(dst)
 }
 
-fn unpack(src: &[u8], mapping_table: &[u8], chunk_size: usize, dst: &mut [u8]) {
+// Returns `None` if a packed value is not an index of the mapping table.
+fn unpack(src: &[u8], mapping_table: &[u8], chunk_size: usize, dst: &mut [u8]) -> Option<()> {
     const BITS: usize = u8::BITS as usize;
 
     let shift = BITS / chunk_size;
@@ -34,10 +46,12 @@ fn unpack(src: &[u8], mapping_table: &[u8], chunk_size: usize, dst: &mut [u8]) {
 
     for (mut s, chunk) in src.iter().copied().zip(dst.chunks_mut(chunk_size)) {
         for d in chunk {
-            *d = mapping_table[usize::from(s & mask)];
+            *d = *mapping_table.get(usize::from(s & mask))?;
             s >>= shift;
         }
     }
+
+    Some(())
 }
 
 #[cfg(test)]
